@@ -769,3 +769,185 @@ def functions_under_contract(groups):
 GP_TRUST = ["vt/gen.py: generic-point arrays (one representative per symbolic axis; index-specific operations refused; formal integral over a symbolic axis) -- self-checked against numpy on concrete arrays every run",
             "contract of FeArray arithmetic (vt.gen.GFe) as decided by C12 against the real class; FeArray.broadcast itself is compiled from the AST",
             "Int[D] f == Int[D] g decided by f == g (sufficient)"]
+
+
+# ---------------------------------------------------------------------------------------------- load integration (C09)
+
+SIMP = "EasyFEA/Simulations/_simu.py"
+NN = gen.Dim("Nn")
+
+
+class _Sel:
+    """a selection of elements / nodes (an index array whose values are never looked at)"""
+
+    def __init__(self, name, n):
+        self.name, self.shape = name, (n,)
+
+
+class _ConnSel:
+    """groupElem.connect[elements]: (Ne, nPe) node numbers of the selected elements; only ever flattened or used to gather a nodal table"""
+
+    def __init__(self, flat):
+        self._flat = flat
+
+    def ravel(self):
+        return self._flat.copy()
+
+
+class _ConnTable:
+    def __init__(self, sel, conn):
+        self.sel, self.conn = sel, conn
+
+    def __getitem__(self, idx):
+        if idx is not self.sel:
+            raise Unsupported("connectivity indexed by something else than the selected elements")
+        return self.conn
+
+
+class _FieldOf:
+    """a per-element field of the whole group, restricted to the selected elements by `field[elements]`"""
+
+    def __init__(self, sel, restricted):
+        self.sel, self.restricted = sel, restricted
+
+    def __getitem__(self, idx):
+        if idx is not self.sel:
+            raise Unsupported("a per-element field indexed by something else than the selected elements")
+        return self.restricted
+
+
+class _NodalVec:
+    """np.zeros(Nn): a nodal table; `t[nodes] = values` scatters, `t[connect]` gathers.  The contract of the pair: the gathered (Ne, nPe) array holds, at (e, n), the
+    value given for the node connect[e, n] -- provided the scatter paired THE caller's nodes with THE caller's values, position by position"""
+
+    def __init__(self, log, gathered):
+        self.log, self.gathered = log, gathered
+
+    def __setitem__(self, idx, value):
+        self.log.append(("scatter", idx, value))
+
+    def __getitem__(self, idx):
+        self.log.append(("gather", idx))
+        return self.gathered.copy()
+
+
+def native_load(form):
+    """the real add_lineLoad on the right edge of a QUAD4 / TRI6 plate (selection listed in reversed order) against the closed-form resultant and moment"""
+    def run():
+        import contextlib, io
+        from EasyFEA import Models, Simulations, ElemType
+        from EasyFEA.Geoms import Domain, Point
+        out = dict(confirmed=False, cases=[])
+        for et in ("QUAD4", "TRI6"):
+            with contextlib.redirect_stdout(io.StringIO()):
+                mesh = Domain(Point(), Point(1, 2), 0.5).Mesh_2D([], ElemType[et])
+                simu = Simulations.Elastic(mesh, Models.Elastic.Isotropic(2, E=1.0, v=0.3, thickness=1.0))
+            co = np.asarray(mesh.coord)
+            nodes = np.where(np.isclose(co[:, 0], 1.0))[0][::-1]
+            q = lambda y: 1.0 + 0.5 * y
+            val = 2.5 if form == "constant" else ((lambda x, y, z: q(y)) if form == "function" else q(co[nodes, 1]))
+            simu.add_lineLoad(nodes, [val], ["x"])
+            Fv = simu.Bc_vector_Neumann()
+            Fv = (np.asarray(Fv.todense()) if hasattr(Fv, "todense") else np.asarray(Fv)).ravel().reshape(-1, 2)[:, 0]
+            R, M = float(Fv.sum()), float((Fv * co[:, 1]).sum())
+            Rex, Mex = (5.0, 5.0) if form == "constant" else (2.0 + 0.25 * 4, 2.0 + 0.5 * 8 / 3)
+            out["cases"].append(dict(elem=et, resultant=R, expected=Rex, moment=M, expected_moment=Mex))
+            if abs(R - Rex) > 1e-9 or abs(M - Mex) > 1e-9:
+                out["confirmed"] = True
+        return out
+    return run
+
+
+@_guard
+def ob_load_integration(nPe, nu, form, canary=False):
+    """_Simu.__Bc_Integration_Dim for one element group, any number of selected elements, any number of integration points"""
+    decl = dict(wJ=(NE, NPG), N=(NPG, 1, nPe), xg=(NE, NPG, 3), g=(NE, nPe), cn=(NE * nPe,))
+    for u in range(nu):
+        decl[f"f{u}"] = (NE, NPG)
+        decl[f"dof{u}"] = (NE * nPe,)
+    sp = gen.Space(decl)
+    g, NPs, Fe = env(sp, "EasyFEA.Simulations._simu")
+    log = []
+
+    class NPx(type(NPs)):
+        def zeros(self, shape, dtype=None, **k):
+            if shape is NN:
+                return _NodalVec(log, sp.arr("g"))
+            return super().zeros(shape, dtype=dtype, **k)
+    g["np"] = NPx(sp)
+    elements = _Sel("elements", NE)
+    nodes = _Sel("nodes", gen.Dim("Nsel"))
+    conn = _ConnSel(sp.arr("cn"))
+    unknowns = ["x", "y", "z"][:nu]
+    group = sx.Mock("groupElem", nPe=nPe, connect=_ConnTable(elements, conn),
+                    Get_Elements_Nodes=lambda nd, exclusively=True: elements if (nd is nodes and exclusively) else (_ for _ in ()).throw(Refuted("elements are not selected exclusively from the caller's nodes", signature="load:selection")),
+                    Get_GaussCoordinates_e_pg=lambda mt, el=None: sp.arr("xg") if el is elements else (_ for _ in ()).throw(Unsupported("Gauss coordinates of other elements")),
+                    Get_N_pg=lambda mt: sp.arr("N"),
+                    Get_weightedJacobian_e_pg=lambda mt: _FieldOf(elements, sp.fe("wJ")))
+    evals = []
+
+    def bc_evaluate(coord, value, option="nodes"):
+        evals.append((coord, value, option))
+        u = len(evals) - 1
+        return sp.arr(f"f{u}")
+    dofcalls = []
+
+    def bc_dofs_nodes(nd, unk, pt=None):
+        dofcalls.append((nd, list(unk)))
+        return sp.arr(f"dof{unknowns.index(unk[0])}")
+    vals_arr = [_Sel(f"values{u}", nodes.shape[0]) for u in range(nu)]
+    values = [2.5] * nu if form == "constant" else ([(lambda x, y, z: x)] * nu if form == "function" else vals_arr)
+    me = sx.Mock("self", mesh=sx.Mock("mesh", Nn=NN, Get_list_groupElem=lambda d=None: [group]), Bc_dofs_nodes=bc_dofs_nodes, _Simu__Bc_evaluate=bc_evaluate)
+    f = fn_of(SIMP, "_Simu.__Bc_Integration_Dim", g)
+    dofsValues, dofs, used = f(me, 1, "pt", nodes, values, unknowns)
+    wJ, N = sp.arr("wJ"), sp.arr("N")
+    want = sp.full((NE * nPe, nu), 0)
+    wdofs = sp.full((NE * nPe, nu), 0)
+    for u in range(nu):
+        if form == "array":
+            dens = gen.einsum("en,pin->ep", sp.arr("g"), N)           # nodal values interpolated at the integration points
+        else:
+            dens = sp.arr(f"f{u}")
+        col = gen.einsum("ep,ep,pin->en", wJ, dens, N)
+        want[:, u] = col.ravel() * (2 if canary else 1)
+        wdofs[:, u] = sp.arr(f"dof{u}")
+    n = 0
+    check(dofsValues, want.ravel(), f"nodal loads (nPe {nPe}, {nu} unknowns, {form} intensity): value at (element e, node n, unknown u) != sum_p wJ[e,p] f_u(x_p) N_n(p)", f"loadint:{form}:values",
+          replay=None if canary else native_load(form))
+    check(dofs, wdofs.ravel(), "dofs paired with the nodal loads != dof(connect[e, n], unknown u) in the same (e, n, u) order", f"loadint:{form}:dofs")
+    check(used, sp.arr("cn"), "nodes reported as loaded != nodes of the selected elements", f"loadint:{form}:nodes")
+    n += 3
+    if form == "array":
+        sc = [l for l in log if l[0] == "scatter"]
+        ga = [l for l in log if l[0] == "gather"]
+        if len(sc) != nu or len(ga) != nu:
+            raise Refuted(f"nodal-array intensity: {len(sc)} scatters / {len(ga)} gathers for {nu} unknowns", signature="loadint:array:count")
+        for u in range(nu):
+            if sc[u][1] is not nodes or sc[u][2] is not vals_arr[u]:
+                raise Refuted(f"nodal-array intensity of unknown {u}: the values are not written at the caller's nodes position by position (`table[nodes] = values[u]`)", signature="loadint:array:pairing")
+            if ga[u][1] is not conn:
+                raise Refuted("nodal-array intensity: the nodal table is not gathered with the connectivity of the selected elements", signature="loadint:array:gather")
+        n += 2 * nu
+    else:
+        if len(evals) != nu or any(e[0] is None or e[2] != "gauss" for e in evals):
+            raise Refuted("constant / function intensity is not evaluated at the Gauss points of the selected elements", signature="loadint:eval")
+        for u, e in enumerate(evals):
+            if gen.first_difference(sp.lift(e[0]), sp.arr("xg")) is not None or e[1] is not values[u]:
+                raise Refuted(f"intensity of unknown {u} evaluated with other coordinates / another value than given", signature="loadint:eval:args")
+        n += nu
+    for u, (nd, unk) in enumerate(dofcalls[:nu]):
+        if unk != [unknowns[u]] or gen.first_difference(sp.lift(nd), sp.arr("cn")) is not None:
+            raise Refuted(f"dofs of unknown {unknowns[u]} are looked up for {unk} on other nodes than connect.ravel()", signature="loadint:dofs:args")
+    return Verdict(DISCHARGED, backend=BACKEND, sub=n)
+
+
+def load_obligations(prop, tier):
+    obs = []
+    for nPe in ((2, 3, 4) if tier == "quick" else (2, 3, 4, 5, 6, 8, 9, 10)):
+        for nu in (1, 2, 3):
+            for form in ("constant", "function", "array"):
+                obs.append(Ob(f"{prop}.gp.integration.n{nPe}.u{nu}.{form}", ob_load_integration, (nPe, nu, form), "P", (f_(SIMP, "_Simu.__Bc_Integration_Dim"),),
+                              clause="nodal load at (e, n, u) == sum_p wJ[e,p] f_u(x_p) N_n(p) (nodal arrays: interpolated through N, scattered at the caller's nodes position by position); "
+                                     "dofs == dof(connect[e,n], u) in the same order; for all numbers of selected elements and integration points", timeout=300))
+    obs.append(Ob(f"{prop}.gp.canary.integration", ob_load_integration, (3, 2, "constant", True), "P", expect=REFUTED, clause="twice the load must be refuted", timeout=120))
+    return obs
